@@ -717,6 +717,17 @@ fn build_mpat(s: &S) -> Result<MatchPattern, String> {
     })
 }
 
+fn op_of(o: &str) -> mimium_lang::ast::operators::Op {
+    use mimium_lang::ast::operators::Op;
+    match o {
+        "+" => Op::Sum,
+        "-" => Op::Minus,
+        "*" => Op::Product,
+        "/" => Op::Divide,
+        other => Op::Unknown(other.to_string()),
+    }
+}
+
 fn build_fields(l: &[S]) -> Result<Vec<RecordField>, String> {
     let mut fs = vec![];
     for f in l {
@@ -765,6 +776,20 @@ fn build(s: &S) -> Result<ExprNodeId, String> {
         "facc" => Expr::FieldAccess(build(&l[1])?, name_of(&l[2])?),
         "app" => Expr::Apply(build(&l[1])?, build_list(&l[2..])?),
         "mexp" => Expr::MacroExpand(build(&l[1])?, build_list(&l[2..])?),
+        "binop" => {
+            let op = match &l[1] {
+                S::Q(o) => op_of(o),
+                _ => return Err("bad binop".into()),
+            };
+            Expr::BinOp(build(&l[2])?, (op, 0..0), build(&l[3])?)
+        }
+        "uniop" => {
+            let op = match &l[1] {
+                S::Q(o) => op_of(o),
+                _ => return Err("bad uniop".into()),
+            };
+            Expr::UniOp((op, 0..0), build(&l[2])?)
+        }
         "paren" => Expr::Paren(build(&l[1])?),
         "lam" => {
             let ps = match &l[1] {
